@@ -127,3 +127,37 @@ theorem preCoef_eq_line (F : PreFormulas) (hF : FormulasOk F) (xs : Array ℚ) (
     · rw [if_neg h, if_neg h]
 
 end DadiVerif
+
+namespace DadiVerif
+open Gen
+
+/-- the tridiagonal system the pre-computed path hands to the solver is, row for row, the on-the-fly system -/
+theorem preCoef_rows_eq (F : PreFormulas) (hF : FormulasOk F) (xs : Array ℚ) (hN : 2 ≤ xs.size)
+    (V M : ℚ → ℚ) (delj : ℕ → ℚ) (nu dt : ℚ) (z o : Bool) (φ : ℕ → ℚ) :
+    let x : ℕ → ℚ := fun j => xs.getD j 0
+    let bcF := if z = true ∧ M (x 0) ≤ 0 then C.bcFirst nu (M (x 0)) (x 1 - x 0) else 0
+    let bcL := if o = true ∧ M (x (xs.size - 1)) ≥ 0 then C.bcLast nu (M (x (xs.size - 1))) (x (xs.size - 2 + 1) - x (xs.size - 2)) else 0
+    (preCoef F xs V M delj bcF bcL).rows xs.size dt φ = (mkLine xs V M delj nu z o dt).rows φ := by
+  intro x bcF bcL
+  unfold PreCoef.rows Line.rows
+  show List.map _ (List.range xs.size) = List.map _ (List.range xs.size)
+  apply List.map_congr_left
+  intro j hj
+  have hjN : j < xs.size := List.mem_range.mp hj
+  obtain ⟨ha, hb, hc⟩ := preCoef_eq_line F hF xs hN V M delj nu dt z o j hjN
+  simp only at ha hb hc
+  show (⟨_, _, _, _⟩ : Row) = ⟨_, _, _, _⟩
+  congr 1
+
+/-- …hence the pre-computed step and the on-the-fly step are the same list of numbers -/
+theorem preCoef_step_eq (F : PreFormulas) (hF : FormulasOk F) (xs : Array ℚ) (hN : 2 ≤ xs.size)
+    (V M : ℚ → ℚ) (delj : ℕ → ℚ) (nu dt : ℚ) (z o : Bool) (φ : ℕ → ℚ) :
+    let x : ℕ → ℚ := fun j => xs.getD j 0
+    let bcF := if z = true ∧ M (x 0) ≤ 0 then C.bcFirst nu (M (x 0)) (x 1 - x 0) else 0
+    let bcL := if o = true ∧ M (x (xs.size - 1)) ≥ 0 then C.bcLast nu (M (x (xs.size - 1))) (x (xs.size - 2 + 1) - x (xs.size - 2)) else 0
+    thomas ((preCoef F xs V M delj bcF bcL).rows xs.size dt φ) = (mkLine xs V M delj nu z o dt).step φ := by
+  intro x bcF bcL
+  unfold Line.step
+  rw [preCoef_rows_eq F hF xs hN V M delj nu dt z o φ]
+
+end DadiVerif
